@@ -1290,11 +1290,16 @@ var vtACSNames = map[byte]rune{
 func (t *tScreen) buildAcsMap() {
 	acsstr := t.ti.AltChars
 	t.acs = make(map[rune]string)
+	// The ACS strings are written as they are, so any padding in the
+	// enter and exit sequences has to be processed here.
+	var enter, exit bytes.Buffer
+	t.ti.TPuts(&enter, t.ti.EnterAcs)
+	t.ti.TPuts(&exit, t.ti.ExitAcs)
 	for len(acsstr) >= 2 {
 		srcv := acsstr[0]
 		dstv := string(acsstr[1])
 		if r, ok := vtACSNames[srcv]; ok {
-			t.acs[r] = t.ti.EnterAcs + dstv + t.ti.ExitAcs
+			t.acs[r] = enter.String() + dstv + exit.String()
 		}
 		acsstr = acsstr[2:]
 	}
